@@ -76,6 +76,8 @@ CONTENTS = {
     "non-message+response": ["junk", "resp"],
     # objects that bear the request's id and are NOT a response the client can deliver: `"result": null`, `"error": null`, no
     # result member at all - each leaves the request unanswered by the server, so the transport still owes its one terminal message
+    "response-with-a-lone-surrogate-escape": ["sresp"],
+    "notif-with-a-lone-surrogate-escape+response": ["snotif", "resp"],
     "null-result-with-the-id": ["nullres"],
     "null-error-with-the-id": ["nullerr"],
     "id-and-nothing-else": ["idonly"],
@@ -135,6 +137,10 @@ def srv_msg(kind, tag, rid):
         return {"jsonrpc": "2.0", "id": f"s{tag}", "method": "sampling/createMessage", "params": {"k": tag}}
     if kind == "srvreq-same":
         return {"jsonrpc": "2.0", "id": base_id, "method": "sampling/createMessage", "params": {"k": tag}}
+    if kind == "sresp":
+        return {"jsonrpc": "2.0", "id": base_id, "result": {"k": tag, "s": "the weather is sunny \ud83d"}}
+    if kind == "snotif":
+        return {"jsonrpc": "2.0", "method": "notifications/progress", "params": {"k": tag, "message": "\udc00 tail of a cut emoji"}}
     if kind == "nullres":
         return {"jsonrpc": "2.0", "id": base_id, "result": None}
     if kind == "nullerr":
@@ -152,7 +158,14 @@ def is_jsonrpc_kind(kind):
 
 
 def dumps(o):
-    return json.dumps(o, separators=(",", ":"), ensure_ascii=False)
+    t = json.dumps(o, separators=(",", ":"), ensure_ascii=False)
+    try:
+        t.encode("utf-8")
+    except UnicodeEncodeError:
+        # a string holding an unpaired UTF-16 surrogate (a JavaScript server that cut a text inside an emoji and then
+        # JSON.stringify-ed it): on the wire it can only be written as the escape \udXXX, which is legal JSON
+        t = json.dumps(o, separators=(",", ":"), ensure_ascii=True)
+    return t
 
 
 def marker(d):
@@ -484,7 +497,7 @@ def intent_of(st):
     msgs = [(t, k, m) for t, k, m in st["_msgs"] if is_jsonrpc_kind(k)]
     intent = [t for t, _k, _m in msgs]
     rid = st["_rid"]
-    answering = {t for t, k, m in msgs if k in ("resp", "uresp", "err") and rid is not None
+    answering = {t for t, k, m in msgs if k in ("resp", "uresp", "sresp", "err") and rid is not None
                  and type(m["id"]) is type(rid) and m["id"] == rid}
     ct = a["ctype"]
     if b.get("damage"):
@@ -528,7 +541,7 @@ def causes(st):
         out.append("nonmsg")
     if "wrong" in kinds or "wrongtype" in kinds:
         out.append("wrongid")
-    if kinds and not any(k in ("resp", "uresp", "err", "wrong", "wrongtype") for k in kinds):
+    if kinds and not any(k in ("resp", "uresp", "sresp", "err", "wrong", "wrongtype") for k in kinds):
         out.append("noresp")
     if b.get("damage"):
         out.append({"truncated": "trunc", "non-utf8": "nonutf8"}[b["damage"]])
